@@ -16,7 +16,7 @@ theorem C05_refusal (st : Static) (c : Ctx) (svc text : Bytes) (cli : XqCli) (i 
 /-- a vouched stamp is stored cut at the first blank / 64 bytes, and `M :+x` goes out exactly
     when the client asked for host hiding (+x) or account-only visibility (+!) -/
 theorem C05_vouch (c : Ctx) (cli : XqCli) (stamp : Bytes) :
-    (xqVouch c cli stamp).req.account = setAccount stamp
+    (xqVouch c cli stamp).req.account = setAccount c.lim stamp
     ∧ (xqVouch c cli stamp).out =
         c.out ++ (if cli.modeX || cli.modeBang then
           [sendReq (xqVouch c cli stamp).req (b "M") (b " :+x")] else []) := by
@@ -24,7 +24,8 @@ theorem C05_vouch (c : Ctx) (cli : XqCli) (stamp : Bytes) :
   dsimp only
   split <;> split <;> simp [updReq, Ctx.emit]
 
-theorem C05_stamp_shape (stamp : Bytes) : (setAccount stamp).length ≤ 64 ∧ ¬ (32 : UInt8) ∈ setAccount stamp := by
+theorem C05_stamp_shape (lim : Limits) (stamp : Bytes) :
+    (setAccount lim stamp).length ≤ lim.account ∧ ¬ (32 : UInt8) ∈ setAccount lim stamp := by
   unfold setAccount
   refine ⟨by simp [List.length_take]; omega, fun h => ?_⟩
   have h1 := List.mem_of_mem_take h
